@@ -103,7 +103,7 @@ func (c11) Plan(tier string, seed int64) []mon.Workload {
 		{Name: "after-error", N: rnd / 4},
 		{Name: "alias-pairs", N: int64(len(c11AliasOps) * len(c11AliasKeys) * len(c11AliasKeys) * 3), Exhaustive: true},
 		{Name: "shared-parts", N: int64(len(c11SharedBuilds) * len(c11SharedUses)), Exhaustive: true},
-		{Name: "string-edges", N: int64(len(c11EdgeOps) * len(c11EdgeVals) * 3), Exhaustive: true}}
+		{Name: "string-edges", N: int64(len(c11EdgeOps) * len(c11EdgeVals) * 5), Exhaustive: true}}
 }
 
 // string-edges (exhaustive): the string builtins on subjects whose ENDS are
@@ -116,8 +116,8 @@ var c11EdgeOps = []string{"trim(k)", "trim(k, \"\")", "trim(k, \" \")", "trim(k,
 	"strfmt(out, \"%s|%q|%d\", k, k, len(k))", "trim(k)\ntrim(k, \"p\")\nuppercase(k)"}
 
 func c11EdgeCase(i int64) c11Case {
-	where := int(i % 3)
-	i /= 3
+	where := int(i % 5)
+	i /= 5
 	val := c11EdgeVals[int(i)%len(c11EdgeVals)]
 	op := c11EdgeOps[int(i)/len(c11EdgeVals)]
 	text := op + "\np(get_key(k), k, get_key(out), len(k))\n"
@@ -132,6 +132,18 @@ func c11EdgeCase(i int64) c11Case {
 			return c11Case{Skip: true}
 		}
 		text = "k = \"" + val + "\"\n" + text
+	case 3:
+		// a variable that exists but holds no value (assigned from a call that
+		// returns nothing), over a field / over nothing: not a subject
+		pt.Fields["k"] = val
+		text = "k = drop_key(nosuchkey)\n" + text
+	case 4:
+		text = "k = set_tag(other, \"" + strings.Trim(strings.Map(func(r rune) rune {
+			if r == '"' || r == '\\' || r < ' ' {
+				return -1
+			}
+			return r
+		}, val), " ") + "\")\n" + text
 	}
 	o := drive.Parse("string-edges", text)
 	if o.Err != nil {
